@@ -149,7 +149,7 @@ TECHNIQUE["C09"] = "def-use, read-dependence, guarded construction (world-set da
 TECHNIQUE["C16"] = "provenance of the decode window's bound over pre-coroutine-transform MIR of the async receive body"
 
 _ADD = {
-    "C01": " The seek dominates the write and the write dominates the record on every path (no conditional seek / skipped write); the held-range list is never reset or replaced (C09-G8). A staging file is opened only when none is held (H); the file status Retained is produced only after io::copy(staged file -> opened destination) returned (P).",
+    "C01": " The seek dominates the write and the write dominates the record on every path (no conditional seek / skipped write); the held-range list is never reset or replaced (C09-G8). A staging file is opened only when none is held (H); the file status Retained is produced only after io::copy(staged file -> opened destination) returned (P). With the CRC option on, every kind of PDU - file data included - is accepted only behind the CRC comparison (C15-M), and transaction ids come from a wrapping read-and-increment so that two live transactions are not cross-wired under one id (C11-I3).",
     "C04": " The held-range list is only changed by recording a written segment (C09-G8). The report given to the sending user with a received Finished PDU is generated after the transaction took over that PDU's condition (S2). Outside the cancel routine the Finished PDU is built only right after finalisation, so a late PDU cannot rebuild the reported outcome (C13-Q3).",
     "C05": " Items are self-delimiting (L2): a decoder that consults the end of its input (short read, read_to_end) is run only in tail position of its reader. No decoder passes a received name or text through a lossy or normalising conversion (C06-P4). The nested item types an encoder delegates to are exactly those its decoder delegates to (L6); no encoder clamps, saturates, sorts or drops part of a field (L7); a field decoded from bits that the encoder fills from something else is reported (L1).",
     "C06": " No decoder uses a lossy or normalising text or path conversion (C06-P4); no decoder decides a value from a short read and end-of-input-delimited decoders run only in tail position (C05-L2) - two necessary conditions of 'whatever is accepted is canonical'.",
